@@ -39,7 +39,7 @@ Tags(conds) == { c[2] : c \in { x \in conds : x[1] } }
 NoCfg == [secrets |-> <<>>, users |-> <<>>, deny |-> <<>>, allow |-> <<>>]
 NoReq == [c |-> -1, sid |-> <<>>, hdr |-> [maj |-> 0, min |-> 0, ty |-> 0, seq |-> 0, fl |-> 0, sid |-> <<>>, len |-> <<>>], b |-> <<>>, l |-> 0]
 ObsInit == [req |-> NoReq, pend |-> FALSE, wr |-> 0, inv |-> 0, sinks |-> <<>>,
-            t |-> << >>, reps |-> << >>, nfeed |-> << >>, iso |-> {}, bad |-> {}]
+            t |-> << >>, reps |-> << >>, nfeed |-> << >>, iso |-> {}, bad |-> {}, noisy |-> FALSE]
 EmptyFn == [x \in {} |-> 0]
 
 \* the secret configuration a connection is bound to (0 = refused), per the Admission oracle
@@ -153,6 +153,9 @@ LookupTags(e, a) ==
 Init == l = 1 /\ sc = "" /\ cfg = NoCfg /\ conns = EmptyFn /\ ms = EmptyFn /\ div = FALSE /\ o = ObsInit
 
 Report(new, e) == IF new = {} THEN TRUE ELSE PrintT(<< "PV", new, sc, l, e.e >>)
+\* once an unframed octet stream has been fed, requests and replies can no longer be paired from the outside:
+\* only crash-freedom (C14) and log hygiene (C18) are judged for the rest of the scenario
+Quiet(on) == IF o.noisy THEN [on EXCEPT !.bad = o.bad \cup (@ \cap {"C14", "C18"})] ELSE on
 
 Next ==
    /\ l <= N /\ l' = l + 1
@@ -180,7 +183,10 @@ Next ==
              /\ LET new == Tags({ << ~o.pend \/ o.inv >= 1, "C07" >>,
                                   << o.pend /\ ScopeIdx(e.c) = 0, "C13" >>,
                                   << o.pend /\ e.b # o.req.b, "C03" >> })
-                IN o' = [o EXCEPT !.inv = @ + 1, !.bad = @ \cup new] /\ Report(new \ o.bad, e)
+                IN o' = Quiet([o EXCEPT !.inv = @ + 1, !.bad = @ \cup new]) /\ Report(Quiet([o EXCEPT !.bad = @ \cup new]).bad \ o.bad, e)
+             /\ UNCHANGED << sc, cfg, conns, ms, div >>
+        [] e.e = "feedraw" ->
+             /\ o' = [o EXCEPT !.noisy = TRUE, !.pend = FALSE]
              /\ UNCHANGED << sc, cfg, conns, ms, div >>
         [] e.e = "sink" ->
              /\ o' = [o EXCEPT !.sinks = Append(@, [ok |-> e.ok, dec |-> e.dec])]
@@ -189,20 +195,20 @@ Next ==
              /\ LET on0 == ObsWr(e)
                     on == IF Admit(cfg, conns[e.c].addr) = 0
                           THEN [on0 EXCEPT !.bad = @ \cup {"C13"}] ELSE on0     \* bytes written on a connection that must be refused
-                IN o' = on /\ Report(on.bad \ o.bad, e)
-             /\ IF div \/ ~o.pend \/ o.inv = 0 \/ ScopeIdx(o.req.c) = 0
+                IN o' = Quiet(on) /\ Report(Quiet(on).bad \ o.bad, e)
+             /\ IF div \/ o.noisy \/ ~o.pend \/ o.inv = 0 \/ ScopeIdx(o.req.c) = 0
                 THEN UNCHANGED << ms, div >>
                 ELSE IF Len(e.b) >= 12 /\ ModelWrOK(e)
                      THEN ms' = Put(ms, << o.req.c, o.req.sid >>, ModelNext(e)) /\ div' = FALSE
                      ELSE div' = TRUE /\ ms' = ms /\ PrintT(<< "DIV", sc, l, "reply differs from Handlers!Handle" >>)
              /\ UNCHANGED << sc, cfg, conns >>
         [] e.e = "rdblock" ->
-             /\ LET on == Settle(FALSE) IN o' = on /\ Report(on.bad \ o.bad, e)
+             /\ LET on == Quiet(Settle(FALSE)) IN o' = on /\ Report(on.bad \ o.bad, e)
              /\ UNCHANGED << sc, cfg, conns, ms, div >>
         [] e.e = "cl" ->
              /\ LET on == Settle(TRUE)
                     new == Tags({ << ScopeIdx(e.c) = 0 /\ (Get(o.reps, << e.c >>, <<>>) # <<>>), "C13" >> })
-                IN o' = on /\ Report(on.bad \ o.bad, e)
+                IN o' = Quiet(on) /\ Report(Quiet(on).bad \ o.bad, e)
              /\ conns' = [conns EXCEPT ![e.c].closed = TRUE]
              \* a closed connection forgets its sessions
              /\ ms' = [k \in {x \in DOMAIN ms : x[1] # e.c} |-> ms[k]]
@@ -220,7 +226,7 @@ Next ==
              /\ o' = [o EXCEPT !.bad = @ \cup {"C14"}] /\ PrintT(<< "PV", {"C14"}, sc, l, "panic" >>)
              /\ UNCHANGED << sc, cfg, conns, ms, div >>
         [] e.e = "end" ->
-             /\ LET new == IsoTags IN o' = [o EXCEPT !.bad = @ \cup new] /\ Report(new \ o.bad, e)
+             /\ LET new == IF o.noisy THEN {} ELSE IsoTags IN o' = [o EXCEPT !.bad = @ \cup new] /\ Report(new \ o.bad, e)
              /\ UNCHANGED << sc, cfg, conns, ms, div >>
         [] OTHER -> UNCHANGED << sc, cfg, conns, ms, div, o >>
 
